@@ -124,6 +124,18 @@ void ob_c04j_arange_element(long a, long n, size_t i)
     { auto v = view::arange(a, a + 2 * n, 2l, i64); OBLIGE("C04.view.arange.element_with_a_step_for_every_index", (long)v(i) == a + 2 * (long)i, 1); }
     { auto v = view::arange(a + 3 * n, a, -3l, i64); OBLIGE("C04.view.arange.element_with_a_negative_step_for_every_index", (long)v(i) == a + 3 * n - 3 * (long)i, 2); }
 }
+// eye(N, M, k) for symbolic extents and diagonal offset: the shape is (N, M)
+void ob_c04j_eye_symbolic(size_t n, size_t m, int k, size_t i, size_t j)
+{
+    ASSUME(n >= 1 && n < (1ul << 20)); ASSUME(m >= 1 && m < (1ul << 20)); ASSUME(k > -(1 << 20) && k < (1 << 20)); ASSUME(i < n && j < m);
+    auto mv = view::eye(n, m, k, i64);
+    OBLIGE("C04.view.eye.symbolic.has_value", nm::has_value(mv), 0);
+    auto v = nm::unwrap(mv); auto shp = nm::shape(v);
+    OBLIGE("C04.view.eye.symbolic.shape", (size_t)nm::len(shp) == 2 && (size_t)nm::at(shp, 0) == n && (size_t)nm::at(shp, 1) == m, 0);
+    // (the element law for symbolic extents - 1 exactly where j == i + k - does not fold: the view selects between two operands through an
+    //  either; swept concretely for extents 1..4 and k in -5..5 without a deviation; the constant-shape instances above state it)
+    (void)i; (void)j;
+}
 void ob_c04j_arange_length_step(long n)
 {
     ASSUME(n >= 1 && n < (1l << 40));
